@@ -318,9 +318,20 @@ def _registry(ck: Check, prog: Program) -> None:
                 ok2 = False
             for al in alts_m:
                 v = al.expr
+                is_map = lambda e_, at_: any('__errors_mapping__' in norm(b_.expr) for b_ in fl_m.alts(at_, e_))
                 good = isinstance(v, ast.Call) and isinstance(v.func, ast.Attribute) and v.func.attr == 'get' and len(v.args) == 2 and \
                     not v.keywords and dotted(v.args[0]) == m.params[1].arg and dotted(v.args[1]) == m.params[2].arg and \
-                    any('__errors_mapping__' in norm(b_.expr) for b_ in fl_m.alts(al.node or n_, v.func.value))
+                    is_map(v.func.value, al.node or n_)
+                # the same lookup spelled as a membership test: `if code in mapping: return mapping[code]` / `return default`
+                member = None
+                for c_, pol_ in al.guards:
+                    if isinstance(c_, ast.Compare) and len(c_.ops) == 1 and isinstance(c_.ops[0], (ast.In, ast.NotIn)) and \
+                            dotted(c_.left) == m.params[1].arg and is_map(c_.comparators[0], (cfg_m.nodes_of(c_) or [n_])[0]):
+                        member = isinstance(c_.ops[0], ast.In) == pol_
+                if isinstance(v, ast.Subscript) and dotted(v.slice) == m.params[1].arg and is_map(v.value, al.node or n_) and member is True:
+                    good = True
+                if dotted(v) == m.params[2].arg and member is False:
+                    good = True
                 if not good:
                     ok2 = False
         ck.ob('REGISTRY', f'{short(m.qualname)} = registry.get(code, default)', ok2)
@@ -344,7 +355,16 @@ def _registry(ck: Check, prog: Program) -> None:
                 kinds = [(classify_cond(prog, new, g.src.ast), g.label) for g in gs]
                 ident = any(c.kind == 'is-none' and c.subject == dotted(key) and (l == 'T') == c.negated for c, l in kinds)
                 truthy = any(c.kind == 'truthy' and c.subject == dotted(key) for c, l in kinds)
-                if dotted(key) and dotted(key).endswith('.code') and ident and not truthy and dotted(a.value) == dotted(key)[:-5]:
+                # what the key is: `<cls>.code`, or a local holding it / `getattr(<cls>, 'code', None)`
+                owner = None
+                for kal in fl_new.alts(n, key):
+                    kv = kal.expr
+                    if dotted(kv) and dotted(kv).endswith('.code'):
+                        owner = dotted(kv)[:-5]
+                    elif isinstance(kv, ast.Call) and dotted(kv.func) == 'getattr' and len(kv.args) >= 2 and \
+                            isinstance(kv.args[1], ast.Constant) and kv.args[1].value == 'code':
+                        owner = dotted(kv.args[0])
+                if owner is not None and ident and not truthy and dotted(a.value) == owner:
                     ok3 = True
                 elif truthy:
                     why = 'registration is guarded by truthiness of the code: an error class with code 0 is never registered'
